@@ -15,6 +15,7 @@ import (
 	"sync"
 	"syscall"
 	"time"
+	"unsafe"
 
 	"github.com/coredhcp/coredhcp/config"
 	"github.com/coredhcp/coredhcp/handler"
@@ -121,6 +122,19 @@ type ReqRes struct {
 	Matched bool     `json:"matched,omitempty"`
 	WriteErr string  `json:"write_err,omitempty"`
 	NilNoStop []int  `json:"nil_no_stop,omitempty"` // handlers that returned (nil, false)
+	Burst *BurstRes  `json:"burst,omitempty"`
+}
+
+// BurstRes reports a group of consecutive async requests handled concurrently,
+// one goroutine per datagram (the Serve path, buffers from the server's pool).
+type BurstRes struct {
+	N             int      `json:"n"`
+	Call          []int64  `json:"call"` // ns since process start, taken outside the server
+	Ret           []int64  `json:"ret"`
+	BufID         []uint64 `json:"buf_id"`          // identity of the pool buffer that carried datagram k
+	ReuseInFlight int      `json:"reuse_in_flight"` // datagrams that got a buffer still used by an unfinished handler's datagram
+	Caps          []CapRes `json:"caps"`
+	Frames        []FrameRes `json:"frames,omitempty"`
 }
 
 type ChainOut struct {
@@ -299,8 +313,86 @@ func chainChild() {
 		}
 		return r
 	}
+	procStart := time.Now()
 	for i := 0; i < len(job.Reqs); i++ {
 		rq := job.Reqs[i]
+		if rq.Async {
+			j := i
+			for j < len(job.Reqs) && job.Reqs[j].Async {
+				j++
+			}
+			emit(map[string]any{"begin": i})
+			rec.reset()
+			if sniff != nil {
+				sniff.collect(0)
+			}
+			br := &BurstRes{N: j - i, Call: make([]int64, j-i), Ret: make([]int64, j-i), BufID: make([]uint64, j-i)}
+			var wg sync.WaitGroup
+			var mu sync.Mutex
+			inflight := map[uint64]int{}
+			for k := i; k < j; k++ {
+				q := job.Reqs[k]
+				if q.Write != nil {
+					wg.Add(1)
+					go func(w *FileWrite, delay int) {
+						defer wg.Done()
+						time.Sleep(time.Duration(delay) * time.Microsecond)
+						if f, err := os.OpenFile(filepath.Join(dir, w.Name), os.O_WRONLY, 0); err == nil {
+							f.WriteAt([]byte(w.Content), 0)
+							f.Close()
+						}
+					}(q.Write, q.SleepMs)
+				}
+				d, _ := hex.DecodeString(q.Hex)
+				if len(d) == 0 {
+					continue
+				}
+				peer := &net.UDPAddr{IP: net.ParseIP(q.Peer), Port: q.Port}
+				rx := q.RxIf
+				if q.RxIfName != "" {
+					if x, err := net.InterfaceByName(q.RxIfName); err == nil {
+						rx = x.Index
+					}
+				}
+				idx := k - i
+				wg.Add(1)
+				var idp *byte
+				br.Call[idx] = int64(time.Since(procStart))
+				done := func() {
+					t := int64(time.Since(procStart))
+					mu.Lock()
+					br.Ret[idx] = t
+					inflight[br.BufID[idx]]--
+					mu.Unlock()
+					wg.Done()
+				}
+				mu.Lock()
+				if q.V6 {
+					idp = s6.l.InjectAsync(d, rx, peer, done)
+				} else {
+					idp = s4.l.InjectAsync(d, rx, peer, done)
+				}
+				id := uint64(uintptr(unsafe.Pointer(idp)))
+				br.BufID[idx] = id
+				if inflight[id] > 0 {
+					br.ReuseInFlight++
+				}
+				inflight[id]++
+				mu.Unlock()
+			}
+			wg.Wait()
+			br.Caps = append(toCaps(s4.Take()), toCaps(s6.Take())...)
+			if sniff != nil {
+				br.Frames = sniff.collect(2 * time.Millisecond)
+			}
+			rr := ReqRes{I: i, Burst: br, Trace: rec.take()}
+			nnsMu.Lock()
+			rr.NilNoStop, nilNoStop = nilNoStop, nil
+			nnsMu.Unlock()
+			emit(rr)
+			i = j - 1
+			continue
+		}
 		data, _ := hex.DecodeString(rq.Hex)
 		peer := &net.UDPAddr{IP: net.ParseIP(rq.Peer), Port: rq.Port}
 		if rq.RxIfName != "" {
